@@ -276,7 +276,7 @@ inline Result run_shards(const Args& a, int n, const std::function<Result(int)>&
 					if (crash_is_violation) {
 						Violation v; v.what = "abnormal termination of the case (" + how + ")";
 						v.replay = cur.empty() ? Json::obj() : Json::parse(cur);
-						v.key = v.replay.has("key") ? v.replay.at("key").s : "crash";
+						v.key = v.replay.has("finding_key") ? v.replay.at("finding_key").s : "crash";
 						total.viol.push_back(v);
 					} else {
 						fprintf(stderr, "vf: shard %d died (%s); framework error, not a verdict. current case: %.400s\n", c.shard, how.c_str(), cur.c_str());
@@ -352,7 +352,7 @@ inline int finish(const Args& a, const Result& r, Evidence ev, bool confirm = tr
 		if (idx >= 10) { ++nviol; continue; }
 		std::string path = dir + "/build/replay/" + a.prop + "-" + a.tier + (a.get("part").empty() ? "" : "-" + a.get("part")) + "-" + std::to_string(idx++) + ".json";
 		Json rp = v.replay; if (rp.t != Json::OBJ) rp = Json::obj();
-		rp.set("property", a.prop).set("key", v.key).set("what", v.what); if (!a.get("part").empty()) rp.set("part", a.get("part"));
+		rp.set("property", a.prop).set("finding_key", v.key).set("what", v.what); if (!a.get("part").empty()) rp.set("part", a.get("part"));
 		{ std::ofstream f(path); f << rp.dump() << "\n"; }
 		if (confirm) {
 			int rc = replay_exit(a, path);
